@@ -30,6 +30,11 @@
 #include <utility>
 #include <vector>
 
+#include <setjmp.h>
+#include <signal.h>
+#include <sys/time.h>
+#include <unistd.h>
+
 #include "common.hpp"
 
 #include <tlx/algorithm/multiway_merge.hpp>
@@ -199,8 +204,24 @@ static void run_merge(const std::vector<std::string>& t) {
     if (sum != len) vh::viol("inputs advanced by " + std::to_string(sum) + " in total, expected " + std::to_string(len) + ctx);
 }
 
+// An operation that burns more than 2 s of CPU time is a hang.  The handler jumps back into the
+// main loop (the abandoned buffers leak, hence the _exit at the end), the op is answered `hang`
+// with a #VIOL line; after 3 hangs the remaining operations are skipped so that a systematic
+// non-termination does not stall the whole check.
+static sigjmp_buf hang_jmp;
+static volatile sig_atomic_t in_op = 0;
+static int hangs = 0;
+static void on_alarm(int) { if (in_op) siglongjmp(hang_jmp, 1); }
+static void arm_watchdog(int sec) {
+    struct itimerval tv;
+    tv.it_interval.tv_sec = 0; tv.it_interval.tv_usec = 0;
+    tv.it_value.tv_sec = sec; tv.it_value.tv_usec = 0;
+    setitimer(ITIMER_VIRTUAL, &tv, nullptr);
+}
+
 int main(int argc, char** argv) {
     if (argc < 2 || std::string(argv[1]) != "run") { std::cerr << "usage: c05 run\n"; return 2; }
+    signal(SIGVTALRM, on_alarm);
     std::string line;
     while (std::getline(std::cin, line)) {
         auto t = vh::tokens(line);
@@ -208,14 +229,28 @@ int main(int argc, char** argv) {
         if (t[0][0] == '#') { vh::answer(line); continue; }
         if (t[0] == "case") { vh::answer("case"); continue; }
         if (t[0] == "merge" && t.size() >= 7) {
-            try {
-                if (t[3] == "e8") run_merge<E8>(t);
-                else if (t[3] == "e40") run_merge<E40>(t);
-                else vh::answer("bad-op");
-            } catch (const std::exception&) { vh::answer("bad-op"); }
+            if (hangs >= 3) { vh::answer("skipped-after-hangs"); continue; }
+            if (sigsetjmp(hang_jmp, 1) == 0) {
+                in_op = 1;
+                arm_watchdog(2);
+                try {
+                    if (t[3] == "e8") run_merge<E8>(t);
+                    else if (t[3] == "e40") run_merge<E40>(t);
+                    else vh::answer("bad-op");
+                } catch (const std::exception&) { vh::answer("bad-op"); }
+                in_op = 0;
+                arm_watchdog(0);
+            }
+            else {
+                in_op = 0;
+                ++hangs;
+                vh::answer("hang");
+                vh::viol("the merge did not terminate (2 s of CPU time) [" + t[1] + " " + t[2] + " " + t[3] + " " + t[4] + " len=" + t[5] + "]");
+            }
             continue;
         }
         vh::answer("bad-op");
     }
+    if (hangs > 0) { std::cout.flush(); _exit(0); }
     return 0;
 }
